@@ -177,6 +177,8 @@ def check_c04(pid, tier, seed, replay):
         mc_parser(ck, "C4", ALPHA_C, 4)
         mc_parser(ck, "D6", ALPHA_D, 6)
     ck.cov["exhaustive"] = True
+    if ck.enough():
+        return ck.finish()
     if quick:
         jobs = [["record", "--seed", str(seed + i), "--n", "500", "--maxlen", str(ml)] for i, ml in enumerate([40, 120, 400])]
         jobs.append(["record", "--seed", str(seed + 9), "--n", "3", "--maxlen", "30", "--chain", "4096"])
